@@ -197,6 +197,10 @@ func (env *specEnv) lookup(name string) (Val, types.Type, bool) {
 									return vc.loadStruct(env.st, v.Type(), ref), v.Type(), true
 								}
 							}
+							if bt, isT := val.(Term); isT && bt.Sort == SPBox {
+								h := vc.heap(env.st, "P:"+typeKey(v.Type()), ArrSort(vc.sortOf(v.Type())))
+								return Select(h, Term{bt.S, SInt}), v.Type(), true
+							}
 							return val, v.Type(), true
 						}
 					}
@@ -323,6 +327,15 @@ func (env *specEnv) eval(e SExpr) (Val, types.Type) {
 				return vc.floatUn("fneg", v), t
 			}
 			return App(v.Sort, "-", v), t
+		case "*":
+			// pointer dereference
+			if pt, ok := t.Underlying().(*types.Pointer); ok {
+				if structOf(pt.Elem()) != nil {
+					return vc.loadStruct(env.st, pt.Elem(), v), pt.Elem()
+				}
+				h := vc.heap(env.st, "P:"+typeKey(pt.Elem()), ArrSort(vc.sortOf(pt.Elem())))
+				return Select(h, v), pt.Elem()
+			}
 		}
 	case SBin:
 		return env.evalBin(x)
@@ -1133,6 +1146,20 @@ func (env *specEnv) modLocs(cls []Clause) []modLoc {
 			spare = c.Fun == "spare"
 			hdr = c.Fun == "hdr"
 			e = c.Args[0]
+		}
+		if c, ok := e.(SCall); ok && c.Fun == "pointee" && len(c.Args) == 1 {
+			// pointee(v): whatever the pointer boxed in interface value v points to (any type)
+			iv, _ := env.evalTerm(c.Args[0])
+			ref := iv
+			if iv.Sort == SIface {
+				ref = IVal(iv)
+			}
+			for _, k := range sortedKeys(vc.heapSort) {
+				if strings.HasPrefix(k, "P:") || strings.HasPrefix(k, "F:") {
+					out = append(out, modLoc{heap: k, base: ref, field: true})
+				}
+			}
+			continue
 		}
 		if u, ok := e.(SUn); ok && u.Op == "*" {
 			e = u.X
